@@ -300,6 +300,10 @@ impl tower::Service<Request<Bytes>> for HarnessSvc {
             if headers.contains_key("never") {
                 futures::future::pending::<()>().await;
             }
+            if headers.contains_key("panic") {
+                // a bug in the application's handler
+                panic!("deliberate: application handler panics");
+            }
             let (status, h, body) = expected_response(&headers, &route, &body);
             let mut resp = Response::new(body).with_status(status);
             for (k, v) in h {
